@@ -32,6 +32,13 @@
 //	gate      log/logf/logAttrs start with `if !l.h.Enabled(level) { return … }`; NewOptions stores its level argument
 //	          unchanged; Options.Enabled is `l >= opts.level`
 //
+// Things are identified by TYPE and ROLE, not by name: the handler's single *sync.Mutex and io.Writer fields (or ONE pointer
+// field to a struct of one mutex and one io.Writer), every slice field, the parameterless method returning *T that builds a new
+// T (clone), the package-level sync.Pool with its *[]byte getter (plain or comma-ok, New as literal or named function) and
+// releaser (guard or early return), the single slog.Level field of Options, the Handler field of Logger. The locked write may
+// sit in ONE own helper method called once at top level of Handle. NewOptions may be `return &Options{…}`, `o := &Options{…};
+// return o` or new(Options) + field assignments. The gate may be `if !GATE {return}`, `if GATE {…}; return`, or via a local.
+//
 // Known limits (covered by the harness, not by these facts): aliasing through values reachable from Options or through
 // package-level state touched by methods not reachable from Handle/With*; data flow through local variables; reflection.
 //
@@ -261,6 +268,12 @@ type writes struct {
 // scanWrites classifies every write in the body of fn. recv may be "" (plain function).
 func scanWrites(p *pkg, recv string, fn *ast.FuncDecl) *writes {
 	w := &writes{fresh: map[string]bool{}}
+	cloneName := ""
+	if t := recvType(fn); t != "" && p.structs[t] != nil && t != "Logger" && t != "Options" {
+		if ro := rolesCache[p][t]; ro != nil {
+			cloneName = ro.clone
+		}
+	}
 	locals := map[string]bool{}
 	addFields := func(fl *ast.FieldList) {
 		if fl != nil {
@@ -281,7 +294,7 @@ func scanWrites(p *pkg, recv string, fn *ast.FuncDecl) *writes {
 				for i, l := range x.Lhs {
 					if id, ok := l.(*ast.Ident); ok {
 						locals[id.Name] = true
-						if recv != "" && len(x.Lhs) == len(x.Rhs) && show(x.Rhs[i]) == recv+".clone()" {
+						if recv != "" && cloneName != "" && len(x.Lhs) == len(x.Rhs) && show(x.Rhs[i]) == recv+"."+cloneName+"()" {
 							w.fresh[id.Name] = true
 						}
 					}
@@ -449,7 +462,7 @@ var readOnlyOptionMethods = map[string]bool{"Enabled": true, "IsDebug": true, "I
 func helperCallsClean(p *pkg, typ string, w *writes, where string) bool {
 	ok := true
 	for _, c := range w.recvCalls {
-		if c == "clone" || readOnlyOptionMethods[c] {
+		if c == rolesOf(p, typ).clone || readOnlyOptionMethods[c] {
 			continue
 		}
 		hm := p.methods[typ][c]
@@ -487,6 +500,115 @@ func fieldType(p *pkg, typ, name string) string {
 	return ""
 }
 
+// roles: things are identified by TYPE and ROLE, not by name.
+type roles struct {
+	clone   string   // the method without parameters that returns *T and builds a new T (clone / derive / …)
+	mu, out string   // selector paths below the receiver of the mutex and of the io.Writer: "outMu" / "dst.mu"
+	share   []string // the fields clone must hand on unchanged so that the child shares mutex and destination
+	muValue bool     // the mutex is a VALUE inside the handler: copies do not share it
+}
+
+var rolesCache = map[*pkg]map[string]*roles{}
+
+func rolesOf(p *pkg, typ string) *roles {
+	if rolesCache[p] == nil {
+		rolesCache[p] = map[string]*roles{}
+	}
+	if r, ok := rolesCache[p][typ]; ok {
+		return r
+	}
+	ro := &roles{}
+	rolesCache[p][typ] = ro
+	var mus, outs, sinks []string
+	for _, f := range p.structs[typ] {
+		switch {
+		case f.typ == "*sync.Mutex":
+			mus = append(mus, f.name)
+		case f.typ == "sync.Mutex":
+			mus = append(mus, f.name)
+			ro.muValue = true
+		case f.typ == "io.Writer":
+			outs = append(outs, f.name)
+		case strings.HasPrefix(f.typ, "*") && f.typ != "*Options" && p.structs[f.typ[1:]] != nil:
+			sinks = append(sinks, f.name)
+		}
+	}
+	switch {
+	case len(mus) == 1 && len(outs) == 1 && len(sinks) == 0:
+		ro.mu, ro.out, ro.share = mus[0], outs[0], []string{mus[0], outs[0]}
+	case len(mus) == 0 && len(outs) == 0 && len(sinks) == 1:
+		// a shared sink: mutex and writer reachable through ONE pointer field
+		st := fieldType(p, typ, sinks[0])[1:]
+		var m2, o2 []string
+		for _, f := range p.structs[st] {
+			switch f.typ {
+			case "sync.Mutex", "*sync.Mutex":
+				m2 = append(m2, f.name)
+			case "io.Writer":
+				o2 = append(o2, f.name)
+			default:
+				unrecognised("%s.%s: field %s.%s of type %s: the facts know a sink of one mutex and one io.Writer only", typ, sinks[0], st, f.name, f.typ)
+			}
+		}
+		if len(m2) != 1 || len(o2) != 1 {
+			unrecognised("%s.%s (*%s) does not hold exactly one mutex and one io.Writer", typ, sinks[0], st)
+		} else {
+			ro.mu, ro.out, ro.share = sinks[0]+"."+m2[0], sinks[0]+"."+o2[0], []string{sinks[0]}
+		}
+		if len(p.methods[st]) > 0 {
+			unrecognised("type %s has methods: locking through them is not a shape the facts know", st)
+		}
+	default:
+		unrecognised("%s: cannot identify the output mutex and the io.Writer by type (mutex fields %v, io.Writer fields %v, struct pointers %v)", typ, mus, outs, sinks)
+	}
+	// the method that returns a fresh copy of the receiver
+	var cands []string
+	for name, m := range p.methods[typ] {
+		ft := m.decl.Type
+		if ft.Params != nil && len(ft.Params.List) > 0 {
+			continue
+		}
+		if ft.Results == nil || len(ft.Results.List) != 1 || show(ft.Results.List[0].Type) != "*"+typ {
+			continue
+		}
+		builds := false
+		ast.Inspect(m.decl.Body, func(n ast.Node) bool {
+			switch x := n.(type) {
+			case *ast.CompositeLit:
+				if show(x.Type) == typ {
+					builds = true
+				}
+			case *ast.AssignStmt:
+				if len(x.Rhs) == 1 && show(x.Rhs[0]) == "*"+m.recv {
+					builds = true
+				}
+			}
+			return true
+		})
+		if builds {
+			cands = append(cands, name)
+		}
+	}
+	sort.Strings(cands)
+	if len(cands) != 1 {
+		unrecognised("%s: the method that returns a fresh copy of the receiver is not unique: %v", typ, cands)
+	} else {
+		ro.clone = cands[0]
+	}
+	return ro
+}
+
+func recvType(fn *ast.FuncDecl) string {
+	if fn.Recv == nil || len(fn.Recv.List) == 0 {
+		return ""
+	}
+	t := fn.Recv.List[0].Type
+	if s, ok := t.(*ast.StarExpr); ok {
+		t = s.X
+	}
+	return show(t)
+}
+
 // checkType: the shape of the handler struct
 func checkType(p *pkg, typ string) {
 	if p.structs[typ] == nil {
@@ -498,11 +620,19 @@ func checkType(p *pkg, typ string) {
 			unrecognised("%s declares its own %s (shadows *Options.%s): which gate the Logger consults is no longer the one the facts describe", typ, m, m)
 		}
 	}
+	ro := rolesOf(p, typ)
+	shared := map[string]bool{}
+	for _, f := range ro.share {
+		shared[f] = true
+	}
+	nbytes := 0
 	for _, f := range p.structs[typ] {
+		if f.typ == "[]byte" {
+			nbytes++
+		}
 		switch {
 		case f.name == "Options" && f.typ == "*Options":
-		case f.name == "outMu": // judged in cloneFields (pointer or value)
-		case f.name == "out" && f.typ == "io.Writer":
+		case shared[f.name]: // the mutex / writer / sink: judged in concOf
 		case strings.HasPrefix(f.typ, "[]"): // judged in cloneFields (must be clipped)
 		case f.typ == "string" || f.typ == "int" || f.typ == "bool" || f.typ == "uint64" || f.typ == "int64" || f.typ == "uint32" || f.typ == "int32":
 		case strings.HasPrefix(f.typ, "atomic."):
@@ -510,16 +640,16 @@ func checkType(p *pkg, typ string) {
 			unrecognised("%s.%s has type %s: the facts do not know how clone() must treat it", typ, f.name, f.typ)
 		}
 	}
-	if t := fieldType(p, typ, "preformatted"); t != "[]byte" {
-		unrecognised("%s.preformatted has type %q, want []byte", typ, t)
+	if nbytes == 0 {
+		unrecognised("%s has no []byte field for the pre-rendered attributes", typ)
 	}
 }
 
 // cloneFields: for each field of the handler struct the expression the child gets, for both clone() shapes.
 func cloneFields(p *pkg, typ string) (*method, map[string]ast.Expr) {
-	m := p.methods[typ]["clone"]
+	m := p.methods[typ][rolesOf(p, typ).clone]
 	if m == nil {
-		unrecognised("%s.clone not found", typ)
+		unrecognised("%s: no clone method", typ)
 		return nil, nil
 	}
 	body := m.decl.Body.List
@@ -615,7 +745,7 @@ func chainOf(p *pkg, typ string) chainFacts {
 			unrecognised("%s.WithAttrs: cannot classify write: %s", typ, o)
 		}
 		if len(w.fresh) == 0 {
-			unrecognised("%s.WithAttrs: no `x := %s.clone()`", typ, wa.recv)
+			unrecognised("%s.WithAttrs: no `x := %s.%s()`", typ, wa.recv, rolesOf(p, typ).clone)
 		}
 		sliceSources(p, typ, "WithAttrs", w)
 		f.WithAttrsFresh = len(w.recvWrites) == 0 && len(w.globalW) == 0 && helperCallsClean(p, typ, w, "WithAttrs")
@@ -638,7 +768,7 @@ func chainOf(p *pkg, typ string) chainFacts {
 				unrecognised("%s.WithGroup: cannot classify write: %s", typ, o)
 			}
 			if len(w.fresh) == 0 && len(w.recvWrites) == 0 {
-				unrecognised("%s.WithGroup: no `x := %s.clone()` and not `return %s`", typ, wg.recv, wg.recv)
+				unrecognised("%s.WithGroup: no `x := %s.%s()` and not `return %s`", typ, wg.recv, rolesOf(p, typ).clone, wg.recv)
 			}
 			sliceSources(p, typ, "WithGroup", w)
 			f.WithGroupFresh = len(w.recvWrites) == 0 && len(w.globalW) == 0 && helperCallsClean(p, typ, w, "WithGroup")
@@ -662,8 +792,9 @@ func sliceSources(p *pkg, typ, where string, w *writes) {
 			unrecognised("%s.%s: %s.%s = %s: the child's slice does not come from append(%s.%s, …)", typ, where, parts[0], fa[0], parts[1], parts[0], fa[0])
 		}
 	}
+	pr := poolRolesOf(p)
 	for _, c := range w.funcCalls {
-		if c == "newBuffer" || c == "freeBuffer" {
+		if c == pr.getter || c == pr.releaser {
 			unrecognised("%s.%s uses the line-buffer pool (%s): pooled memory must not become part of a handler", typ, where, c)
 		}
 	}
@@ -707,6 +838,41 @@ func loggerWraps(p *pkg) (bool, []string) {
 		}
 	}
 	return ok, notes
+}
+
+type lwInfo struct {
+	lock, dunlock, unlock, wr []int
+	nLock, nUnlock, nWrite    int
+	otherOut                  int
+	writeArg                  string
+}
+
+// lockWriteInfo: where fn locks / unlocks the output mutex and writes to the destination (paths by role)
+func lockWriteInfo(fn *ast.FuncDecl, recv string, ro *roles) lwInfo {
+	var in lwInfo
+	if ro.mu == "" || ro.out == "" {
+		return in
+	}
+	body := fn.Body.List
+	is := func(s string) func(*ast.CallExpr) bool { return func(c *ast.CallExpr) bool { return show(c) == s } }
+	isWrite := func(c *ast.CallExpr) bool { return show(c.Fun) == recv+"."+ro.out+".Write" }
+	lockS, unlockS := recv+"."+ro.mu+".Lock()", recv+"."+ro.mu+".Unlock()"
+	in.lock, in.dunlock, in.unlock = topLevel(body, false, is(lockS)), topLevel(body, true, is(unlockS)), topLevel(body, false, is(unlockS))
+	in.wr = topLevel(body, false, isWrite)
+	in.nLock, in.nUnlock, in.nWrite = countCalls(fn.Body, is(lockS)), countCalls(fn.Body, is(unlockS)), countCalls(fn.Body, isWrite)
+	ast.Inspect(fn.Body, func(n ast.Node) bool {
+		if c, ok := n.(*ast.CallExpr); ok && isWrite(c) {
+			if len(c.Args) == 1 {
+				in.writeArg = show(c.Args[0])
+			}
+			return false
+		}
+		if s, ok := n.(*ast.SelectorExpr); ok && show(s) == recv+"."+ro.out {
+			in.otherOut++
+		}
+		return true
+	})
+	return in
 }
 
 // topLevel reports the index of the top-level statement of body that is exactly the call `want` (as an expression
@@ -755,26 +921,28 @@ func concOf(p *pkg, typ string) concFacts {
 	var f concFacts
 	checkType(p, typ)
 	m, fields := cloneFields(p, typ)
-	if fields != nil {
-		mu, ok := fields["outMu"]
-		mt := fieldType(p, typ, "outMu")
-		switch {
-		case !ok:
-			unrecognised("%s.clone does not set outMu", typ)
-		case mt == "sync.Mutex":
-			f.Notes = append(f.Notes, "outMu is a mutex VALUE: every clone gets its own copy of the lock")
-		case mt != "*sync.Mutex":
-			unrecognised("%s.outMu has type %s, want *sync.Mutex", typ, mt)
-		case show(mu) == m.recv+".outMu":
-			f.CloneSharesMu = true
-		default:
-			f.Notes = append(f.Notes, "clone gives the child another mutex: "+show(mu))
+	ro := rolesOf(p, typ)
+	if fields != nil && ro.mu != "" {
+		f.CloneSharesMu = true
+		if ro.muValue {
+			f.CloneSharesMu = false
+			f.Notes = append(f.Notes, "the mutex is a VALUE inside the handler: every clone gets its own copy of the lock")
 		}
-		if o, ok := fields["out"]; !ok || show(o) != m.recv+".out" {
-			unrecognised("%s.clone does not copy out", typ)
+		for _, sf := range ro.share {
+			v, ok := fields[sf]
+			switch {
+			case !ok:
+				unrecognised("%s.%s does not set %s", typ, ro.clone, sf)
+			case show(v) == m.recv+"."+sf:
+			case strings.HasSuffix(fieldType(p, typ, sf), "io.Writer"):
+				unrecognised("%s.%s does not copy the destination %s", typ, ro.clone, sf)
+			default:
+				f.CloneSharesMu = false
+				f.Notes = append(f.Notes, ro.clone+" gives the child another mutex / sink: "+sf+": "+show(v))
+			}
 		}
 	}
-	// no method ever assigns outMu / out
+	// no method ever assigns the mutex, the writer or the sink
 	f.MuOutImmutable = true
 	var names []string
 	for n := range p.methods[typ] {
@@ -785,9 +953,11 @@ func concOf(p *pkg, typ string) concFacts {
 		mm := p.methods[typ][n]
 		w := scanWrites(p, mm.recv, mm.decl)
 		for _, wr := range w.recvWrites {
-			if strings.HasSuffix(wr, "."+"outMu") || strings.HasSuffix(wr, ".out") || strings.Contains(wr, ".outMu ") || strings.Contains(wr, ".out ") {
-				f.MuOutImmutable = false
-				f.Notes = append(f.Notes, n+" assigns the output mutex / destination: "+wr)
+			for _, path := range append([]string{ro.mu, ro.out}, ro.share...) {
+				if path != "" && (strings.HasSuffix(wr, "."+path) || strings.Contains(wr, "."+path+" ")) {
+					f.MuOutImmutable = false
+					f.Notes = append(f.Notes, n+" assigns the output mutex / destination: "+wr)
+				}
 			}
 		}
 	}
@@ -798,27 +968,84 @@ func concOf(p *pkg, typ string) concFacts {
 	}
 	r := h.recv
 	body := h.decl.Body.List
+	pr := poolRolesOf(p)
 	is := func(s string) func(*ast.CallExpr) bool { return func(c *ast.CallExpr) bool { return show(c) == s } }
-	isWrite := func(c *ast.CallExpr) bool { return show(c.Fun) == r+".out.Write" }
-	isNew := is("newBuffer()")
+	isNew := is(pr.getter + "()")
 	isFree := func(c *ast.CallExpr) bool {
 		s := show(c)
-		return strings.HasPrefix(s, "freeBuffer(") || strings.HasPrefix(s, "bufferPool.Put(")
+		return strings.HasPrefix(s, pr.releaser+"(") || strings.HasPrefix(s, pr.pool+".Put(")
 	}
-	lock, dunlock, unlock := topLevel(body, false, is(r+".outMu.Lock()")), topLevel(body, true, is(r+".outMu.Unlock()")), topLevel(body, false, is(r+".outMu.Unlock()"))
-	wr, nb, dfree := topLevel(body, false, isWrite), topLevel(body, false, isNew), topLevel(body, true, isFree)
-	nLock, nUnlock, nWrite := countCalls(h.decl.Body, is(r+".outMu.Lock()")), countCalls(h.decl.Body, is(r+".outMu.Unlock()")), countCalls(h.decl.Body, isWrite)
+	nb, dfree := topLevel(body, false, isNew), topLevel(body, true, isFree)
 	nNew, nFree := countCalls(h.decl.Body, isNew), countCalls(h.decl.Body, isFree)
-	f.Notes = append(f.Notes, fmt.Sprintf("Handle top-level statement indices: newBuffer%v deferFree%v lock%v deferUnlock%v write%v unlock%v", nb, dfree, lock, dunlock, wr, unlock))
+	// the locked write: in Handle itself, or in ONE own helper method called once at top level of Handle (inlined)
+	info := lockWriteInfo(h.decl, r, ro)
+	writeAt := -1 // index of the top-level statement of Handle that performs the write
+	where := "Handle"
+	if info.nWrite == 0 && info.nLock == 0 {
+		var helper *method
+		var call *ast.CallExpr
+		total := 0
+		for name, mm := range p.methods[typ] {
+			if name == "Handle" {
+				continue
+			}
+			hi := lockWriteInfo(mm.decl, mm.recv, ro)
+			if hi.nWrite == 0 && hi.nLock == 0 {
+				continue
+			}
+			isCall := func(c *ast.CallExpr) bool { return show(c.Fun) == r+"."+name }
+			n := countCalls(h.decl.Body, isCall)
+			total += n
+			if idx := topLevel(body, false, isCall); len(idx) == 1 && n == 1 {
+				helper, writeAt = mm, idx[0]
+				ast.Inspect(body[idx[0]], func(nd ast.Node) bool {
+					if c, ok := nd.(*ast.CallExpr); ok && isCall(c) {
+						call = c
+					}
+					return true
+				})
+				where = name
+			} else if n > 0 {
+				f.Notes = append(f.Notes, fmt.Sprintf("Handle calls the locking helper %s %d times / not as a top-level statement", name, n))
+				total += 100
+			}
+		}
+		if helper != nil && total == 1 && call != nil {
+			info = lockWriteInfo(helper.decl, helper.recv, ro)
+			// the helper writes one of its parameters: what does Handle pass for it?
+			arg := info.writeArg
+			pos := -1
+			i := 0
+			for _, fl := range helper.decl.Type.Params.List {
+				for _, nm := range fl.Names {
+					if nm.Name == arg {
+						pos = i
+					}
+					i++
+				}
+			}
+			if pos >= 0 && pos < len(call.Args) {
+				info.writeArg = show(call.Args[pos])
+			} else {
+				info.writeArg = "?"
+			}
+		} else if total != 0 {
+			info.nWrite, info.nLock = total, total // recognised, but not the single top-level call: facts false below
+			writeAt = -1
+		}
+	} else if len(info.wr) > 0 {
+		writeAt = info.wr[0]
+	}
+	f.Notes = append(f.Notes, fmt.Sprintf("%s: top-level statement indices: newBuffer%v deferFree%v | %s: lock%v deferUnlock%v write%v unlock%v", "Handle", nb, dfree, where, info.lock, info.dunlock, info.wr, info.unlock))
+	if info.nWrite == 0 {
+		unrecognised("%s.Handle: no call of %s.%s.Write (directly or in one own helper)", typ, r, ro.out)
+	}
 	nested := func(what string, top, all int) bool {
 		if all > top {
-			f.Notes = append(f.Notes, fmt.Sprintf("Handle: %d of %d %s calls are not top-level statements (inside if/for/switch/go/defer/func literal)", all-top, all, what))
+			f.Notes = append(f.Notes, fmt.Sprintf("%s: %d of %d %s calls are not top-level statements (inside if/for/switch/go/defer/func literal)", where, all-top, all, what))
 			return true
 		}
 		return false
-	}
-	if nWrite == 0 {
-		unrecognised("%s.Handle: no call of %s.out.Write", typ, r)
 	}
 	// buffer
 	bufVar := ""
@@ -827,72 +1054,57 @@ func concOf(p *pkg, typ string) concFacts {
 			bufVar = show(a.Lhs[0])
 		}
 	}
-	f.BufFromPool = len(nb) == 1 && nNew == 1 && bufVar != "" && (len(wr) == 0 || nb[0] < wr[0])
+	f.BufFromPool = len(nb) == 1 && nNew == 1 && bufVar != "" && (writeAt < 0 || nb[0] < writeAt)
 	if !f.BufFromPool {
-		unrecognised("%s.Handle: buffer is not a top-level `buf := newBuffer()` before the Write", typ)
+		unrecognised("%s.Handle: buffer is not a top-level `buf := %s()` before the Write", typ, pr.getter)
 	}
-	f.FreeDeferred = len(dfree) == 1 && nFree == 1 && bufVar != "" && show(body[dfree[0]].(*ast.DeferStmt).Call) == "freeBuffer("+bufVar+")" && dfree[0] > nb[0]
+	f.FreeDeferred = len(dfree) == 1 && nFree == 1 && bufVar != "" && show(body[dfree[0]].(*ast.DeferStmt).Call) == pr.releaser+"("+bufVar+")" && len(nb) == 1 && dfree[0] > nb[0]
 	if !f.FreeDeferred {
 		if nFree == 0 {
 			unrecognised("%s.Handle: buffer is never released", typ)
 		}
-		f.Notes = append(f.Notes, "Handle: the buffer is not released by a single top-level `defer freeBuffer(buf)`")
+		f.Notes = append(f.Notes, "Handle: the buffer is not released by a single top-level `defer "+pr.releaser+"(buf)`")
 	}
 	// the single Write
-	otherOut := 0
-	ast.Inspect(h.decl.Body, func(n ast.Node) bool {
-		if c, ok := n.(*ast.CallExpr); ok && isWrite(c) {
-			return false
-		}
-		if s, ok := n.(*ast.SelectorExpr); ok && show(s) == r+".out" {
-			otherOut++
-		}
-		return true
-	})
-	wNested := nested("out.Write", len(wr), nWrite)
-	f.SingleWrite = len(wr) == 1 && nWrite == 1 && otherOut == 0 && !wNested
-	if f.SingleWrite && bufVar != "" {
-		var call *ast.CallExpr
-		ast.Inspect(body[wr[0]], func(n ast.Node) bool {
-			if c, ok := n.(*ast.CallExpr); ok && isWrite(c) {
-				call = c
-			}
-			return true
-		})
-		if call == nil || len(call.Args) != 1 || show(call.Args[0]) != "*"+bufVar {
-			f.SingleWrite = false
-			unrecognised("%s.Handle: the argument of the single Write is not *%s", typ, bufVar)
-		}
+	wNested := nested(ro.out+".Write", len(info.wr), info.nWrite)
+	otherOut := info.otherOut
+	if where != "Handle" {
+		otherOut += lockWriteInfo(h.decl, r, ro).otherOut
+	}
+	f.SingleWrite = len(info.wr) == 1 && info.nWrite == 1 && otherOut == 0 && !wNested
+	if f.SingleWrite && bufVar != "" && info.writeArg != "*"+bufVar {
+		f.SingleWrite = false
+		unrecognised("%s.Handle: the argument of the single Write is %s, not *%s", typ, info.writeArg, bufVar)
 	}
 	if otherOut > 0 {
-		f.Notes = append(f.Notes, fmt.Sprintf("Handle uses %s.out %d times outside the Write call", r, otherOut))
+		f.Notes = append(f.Notes, fmt.Sprintf("the destination %s.%s is used %d times outside the Write call", r, ro.out, otherOut))
 	}
 	// the lock
-	lNested := nested("outMu.Lock", len(lock), nLock)
-	uNested := nested("outMu.Unlock", len(dunlock)+len(unlock), nUnlock)
+	lNested := nested(ro.mu+".Lock", len(info.lock), info.nLock)
+	uNested := nested(ro.mu+".Unlock", len(info.dunlock)+len(info.unlock), info.nUnlock)
 	switch {
-	case nLock == 0:
-		f.Notes = append(f.Notes, "Handle never locks outMu")
-	case len(lock) != 1 || lNested || uNested || len(wr) == 0:
-		f.Notes = append(f.Notes, "Handle: lock / unlock are not single top-level statements around the Write")
+	case info.nLock == 0:
+		f.Notes = append(f.Notes, where+" never locks the output mutex")
+	case len(info.lock) != 1 || lNested || uNested || len(info.wr) == 0:
+		f.Notes = append(f.Notes, where+": lock / unlock are not single top-level statements around the Write")
 	default:
 		released := false
-		for _, d := range dunlock {
-			if d > lock[0] && d < wr[0] {
+		for _, d := range info.dunlock {
+			if d > info.lock[0] && d < info.wr[0] {
 				released = true
 			}
 		}
-		under := lock[0] < wr[0]
-		for _, u := range unlock {
-			if u > wr[len(wr)-1] {
+		under := info.lock[0] < info.wr[0]
+		for _, u := range info.unlock {
+			if u > info.wr[len(info.wr)-1] {
 				released = true
 			}
-			if u > lock[0] && u < wr[len(wr)-1] {
+			if u > info.lock[0] && u < info.wr[len(info.wr)-1] {
 				under = false
 			}
 		}
 		if !released {
-			unrecognised("%s.Handle: outMu is locked but not unlocked by a top-level defer before / Unlock after the Write", typ)
+			unrecognised("%s.%s: the mutex is locked but not unlocked by a top-level defer before / Unlock after the Write", typ, where)
 		}
 		f.WriteUnderLock = under && released
 	}
@@ -913,7 +1125,7 @@ func concOf(p *pkg, typ string) concFacts {
 		}
 		seen[fn] = true
 		hw := scanWrites(p, "", p.funcs[fn])
-		if fn != "freeBuffer" && fn != "newBuffer" { // the pool discipline is judged by its own facts
+		if fn != pr.releaser && fn != pr.getter && fn != pr.newFn { // the pool discipline is judged by its own facts
 			for _, g := range hw.globalW {
 				f.HandleReadonly = false
 				f.Notes = append(f.Notes, fn+" (reachable from Handle) writes a package-level variable: "+g)
@@ -948,12 +1160,143 @@ type globalFacts struct {
 	Notes                                                     []string
 }
 
+// poolRoles: the line-buffer pool and its two accessors, found by type and role:
+// the package-level sync.Pool from which a parameterless function returning *[]byte Gets, and the function taking a
+// *[]byte that Puts into the same pool.
+type poolRoles struct{ getter, releaser, pool, newFn string }
+
+var poolCache = map[*pkg]*poolRoles{}
+
+func poolRolesOf(p *pkg) *poolRoles {
+	if pr, ok := poolCache[p]; ok {
+		return pr
+	}
+	pr := &poolRoles{}
+	poolCache[p] = pr
+	pools := map[string]bool{}
+	for name, v := range p.vars {
+		if lit, ok := v.(*ast.CompositeLit); ok && show(lit.Type) == "sync.Pool" {
+			pools[name] = true
+		}
+	}
+	var getters, releasers []string
+	for name, fn := range p.funcs {
+		ft := fn.Type
+		nparams := 0
+		ptype := ""
+		if ft.Params != nil {
+			for _, fl := range ft.Params.List {
+				nparams += max(1, len(fl.Names))
+				ptype = show(fl.Type)
+			}
+		}
+		for pool := range pools {
+			if nparams == 0 && ft.Results != nil && len(ft.Results.List) == 1 && show(ft.Results.List[0].Type) == "*[]byte" &&
+				countCalls(fn.Body, func(c *ast.CallExpr) bool { return show(c) == pool+".Get()" }) > 0 {
+				getters = append(getters, name+"|"+pool)
+			}
+			if nparams == 1 && ptype == "*[]byte" &&
+				countCalls(fn.Body, func(c *ast.CallExpr) bool { return show(c.Fun) == pool+".Put" }) > 0 {
+				releasers = append(releasers, name+"|"+pool)
+			}
+		}
+	}
+	sort.Strings(getters)
+	sort.Strings(releasers)
+	if len(getters) != 1 || len(releasers) != 1 {
+		unrecognised("cannot identify the line-buffer pool accessors: functions that Get a *[]byte from a sync.Pool %v, functions that Put one %v", getters, releasers)
+		return pr
+	}
+	g, r := strings.Split(getters[0], "|"), strings.Split(releasers[0], "|")
+	if g[1] != r[1] {
+		unrecognised("%s gets from %s but %s puts into %s", g[0], g[1], r[0], r[1])
+		return pr
+	}
+	pr.getter, pr.releaser, pr.pool = g[0], r[0], g[1]
+	if lit, ok := p.vars[pr.pool].(*ast.CompositeLit); ok {
+		for _, el := range lit.Elts {
+			if kv, ok := el.(*ast.KeyValueExpr); ok && show(kv.Key) == "New" {
+				if id, ok := kv.Value.(*ast.Ident); ok {
+					pr.newFn = id.Name
+				}
+			}
+		}
+	}
+	return pr
+}
+
+// gateShape: does fn decide on `l.h.Enabled(level)` before anything else runs?
+//
+//	if !GATE { return … } …                      negative form
+//	if GATE { … } return <no call>               positive form (nothing but a plain return after the if)
+//	x := GATE; if !x { return … } … | if x { … } return <no call>
+func gateShape(m *method, hfield string) (first, seen bool) {
+	lvl := ""
+	for _, prm := range m.decl.Type.Params.List {
+		if show(prm.Type) == "slog.Level" && len(prm.Names) == 1 {
+			lvl = prm.Names[0].Name
+		}
+	}
+	gate := m.recv + "." + hfield + ".Enabled(" + lvl + ")"
+	body := m.decl.Body.List
+	ast.Inspect(m.decl.Body, func(n ast.Node) bool {
+		if c, ok := n.(*ast.CallExpr); ok && show(c) == gate {
+			seen = true
+		}
+		return true
+	})
+	if len(body) == 0 {
+		return false, seen
+	}
+	cond := gate
+	i := 0
+	if a, ok := body[0].(*ast.AssignStmt); ok && a.Tok == token.DEFINE && len(a.Lhs) == 1 && len(a.Rhs) == 1 && show(a.Rhs[0]) == gate {
+		cond = show(a.Lhs[0])
+		i = 1
+	}
+	if i >= len(body) {
+		return false, seen
+	}
+	is, ok := body[i].(*ast.IfStmt)
+	if !ok || is.Init != nil {
+		return false, seen
+	}
+	plainReturn := func(st ast.Stmt) bool {
+		r, ok := st.(*ast.ReturnStmt)
+		if !ok {
+			return false
+		}
+		calls := 0
+		ast.Inspect(r, func(n ast.Node) bool {
+			if _, ok := n.(*ast.CallExpr); ok {
+				calls++
+			}
+			return true
+		})
+		return calls == 0
+	}
+	switch show(is.Cond) {
+	case "!" + cond, "!(" + cond + ")", cond + "==false":
+		return is.Else == nil && len(is.Body.List) == 1 && plainReturn(is.Body.List[0]), seen
+	case cond, cond + "==true":
+		// everything happens inside the if; afterwards (and in an else) only a plain return
+		rest := body[i+1:]
+		okRest := len(rest) == 0 || (len(rest) == 1 && plainReturn(rest[0]))
+		okElse := is.Else == nil
+		if eb, ok := is.Else.(*ast.BlockStmt); ok {
+			okElse = len(eb.List) == 1 && plainReturn(eb.List[0])
+		}
+		return okRest && okElse, seen
+	}
+	return false, seen
+}
+
 func globalsOf(p *pkg) globalFacts {
 	var g globalFacts
-	g.MaxBufferSize = p.consts["maxBufferSize"]
-	fb := p.funcs["freeBuffer"]
-	if fb == nil || fb.Type.Params == nil || len(fb.Type.Params.List) != 1 || len(fb.Type.Params.List[0].Names) != 1 {
-		unrecognised("freeBuffer(buf *[]byte) not found")
+	pr := poolRolesOf(p)
+	// the releaser: reset before the single Put, guarded by a comparison of cap(*buf) with the size limit
+	if fb := p.funcs[pr.releaser]; fb == nil {
+		unrecognised("the function that returns line buffers to the pool was not found")
 	} else {
 		b := fb.Type.Params.List[0].Names[0].Name
 		type putInfo struct {
@@ -961,6 +1304,17 @@ func globalsOf(p *pkg) globalFacts {
 			reset   bool
 		}
 		var puts []putInfo
+		limit := func(c, op string, capFirst bool) (string, bool) {
+			// c is `cap(*b) OP X` (capFirst) or `X OP cap(*b)`
+			capS := "cap(*" + b + ")"
+			if capFirst && strings.HasPrefix(c, capS+op) {
+				return c[len(capS+op):], true
+			}
+			if !capFirst && strings.HasSuffix(c, op+capS) {
+				return c[:len(c)-len(op+capS)], true
+			}
+			return "", false
+		}
 		var walk func(stmts []ast.Stmt, guarded bool)
 		walk = func(stmts []ast.Stmt, guarded bool) {
 			reset := false
@@ -972,13 +1326,26 @@ func globalsOf(p *pkg) globalFacts {
 						reset = rhs == "(*"+b+")[:0]" || rhs == "(*"+b+")[0:0]"
 					}
 				case *ast.ExprStmt:
-					if show(x.X) == "bufferPool.Put("+b+")" {
+					if show(x.X) == pr.pool+".Put("+b+")" {
 						puts = append(puts, putInfo{guarded, reset})
 					}
 				case *ast.IfStmt:
 					c := show(x.Cond)
-					small := c == "cap(*"+b+")<=maxBufferSize" || c == "maxBufferSize>=cap(*"+b+")" || c == "cap(*"+b+")<maxBufferSize+1"
-					big := c == "cap(*"+b+")>maxBufferSize" || c == "maxBufferSize<cap(*"+b+")"
+					small, big := false, false
+					for _, t := range []struct {
+						op       string
+						capFirst bool
+						isSmall  bool
+					}{{"<=", true, true}, {">=", false, true}, {">", true, false}, {"<", false, false}} {
+						if lim, ok := limit(c, t.op, t.capFirst); ok && lim != "" && !strings.ContainsAny(lim, "<>=") {
+							g.MaxBufferSize = lim
+							if t.isSmall {
+								small = true
+							} else {
+								big = true
+							}
+						}
+					}
 					walk(x.Body.List, guarded || small)
 					if big {
 						if len(x.Body.List) == 1 {
@@ -987,33 +1354,43 @@ func globalsOf(p *pkg) globalFacts {
 							}
 						}
 					} else if !small {
-						unrecognised("freeBuffer: unexpected condition %s", c)
+						unrecognised("%s: unexpected condition %s", pr.releaser, c)
 					}
 					if x.Else != nil {
-						unrecognised("freeBuffer: else branch")
+						unrecognised("%s: else branch", pr.releaser)
 					}
 				case *ast.ReturnStmt:
 				default:
-					unrecognised("freeBuffer: unexpected statement")
+					unrecognised("%s: unexpected statement", pr.releaser)
 				}
 			}
 		}
 		walk(fb.Body.List, false)
 		if len(puts) != 1 {
-			unrecognised("freeBuffer: bufferPool.Put(%s) occurs %d times", b, len(puts))
+			unrecognised("%s: %s.Put(%s) occurs %d times", pr.releaser, pr.pool, b, len(puts))
 		} else {
 			g.ResetBeforePut = puts[0].reset
 			g.RefusesOversized = puts[0].guarded
 			if !puts[0].reset {
-				g.Notes = append(g.Notes, "freeBuffer puts the buffer back without `*buf = (*buf)[:0]`")
+				g.Notes = append(g.Notes, pr.releaser+" puts the buffer back without `*buf = (*buf)[:0]`")
 			}
 		}
+		if v, ok := p.consts[g.MaxBufferSize]; ok {
+			g.MaxBufferSize = g.MaxBufferSize + " = " + v
+		}
 	}
-	if bp, ok := p.vars["bufferPool"]; !ok {
-		unrecognised("var bufferPool not found")
-	} else {
+	// the pool's New (a function literal or a named function) makes an empty buffer
+	if bp, ok := p.vars[pr.pool]; ok {
+		var where ast.Node = bp
+		if pr.newFn != "" {
+			if nf := p.funcs[pr.newFn]; nf != nil {
+				where = nf.Body
+			} else {
+				unrecognised("%s.New: function %s not found", pr.pool, pr.newFn)
+			}
+		}
 		found := false
-		ast.Inspect(bp, func(n ast.Node) bool {
+		ast.Inspect(where, func(n ast.Node) bool {
 			if c, ok := n.(*ast.CallExpr); ok && show(c.Fun) == "make" && len(c.Args) == 3 {
 				found = true
 				g.PoolNewEmpty = show(c.Args[0]) == "[]byte" && show(c.Args[1]) == "0"
@@ -1021,53 +1398,119 @@ func globalsOf(p *pkg) globalFacts {
 			return true
 		})
 		if !found {
-			unrecognised("bufferPool.New does not make([]byte, 0, n)")
+			unrecognised("%s.New does not make([]byte, 0, n)", pr.pool)
 		}
 	}
-	okNew := false
-	if nb := p.funcs["newBuffer"]; nb != nil && len(nb.Body.List) == 1 {
-		if r, ok := nb.Body.List[0].(*ast.ReturnStmt); ok && len(r.Results) == 1 && strings.HasPrefix(show(r.Results[0]), "bufferPool.Get()") {
-			okNew = true
+	// the getter: takes from the pool (one Get), or makes a fresh buffer with the pool's New; touches nothing else
+	if nb := p.funcs[pr.getter]; nb != nil {
+		w := scanWrites(p, "", nb)
+		okRet := true
+		ast.Inspect(nb.Body, func(n ast.Node) bool {
+			if r, ok := n.(*ast.ReturnStmt); ok && len(r.Results) == 1 {
+				s := show(r.Results[0])
+				fromPool := strings.HasPrefix(s, pr.pool+".Get()")
+				fresh := pr.newFn != "" && strings.HasPrefix(s, pr.newFn+"()")
+				if _, isIdent := r.Results[0].(*ast.Ident); !(fromPool || fresh || isIdent) {
+					okRet = false
+				}
+			}
+			return true
+		})
+		nGet := countCalls(nb.Body, func(c *ast.CallExpr) bool { return show(c) == pr.pool+".Get()" })
+		nPut := countCalls(nb.Body, func(c *ast.CallExpr) bool { return strings.HasSuffix(show(c.Fun), ".Put") })
+		if nGet != 1 || nPut != 0 || !okRet || len(w.globalW) > 0 || len(w.other) > 0 {
+			unrecognised("%s is not `return %s.Get().(*[]byte)` (or its comma-ok form)", pr.getter, pr.pool)
 		}
-	}
-	if !okNew {
-		unrecognised("newBuffer is not `return bufferPool.Get().(*[]byte)`")
 	}
 	// NewOptions stores the level argument unchanged; Options.Enabled is `l >= opts.level`
+	lvlField := ""
+	for _, fd := range p.structs["Options"] {
+		if fd.typ == "slog.Level" {
+			if lvlField != "" {
+				unrecognised("Options has several slog.Level fields")
+			}
+			lvlField = fd.name
+		}
+	}
+	if lvlField == "" {
+		unrecognised("Options has no slog.Level field")
+	}
 	if no := p.funcs["NewOptions"]; no == nil || no.Type.Params == nil || len(no.Type.Params.List) == 0 || len(no.Type.Params.List[0].Names) == 0 {
 		unrecognised("NewOptions(level, …) not found")
-	} else {
+	} else if lvlField != "" {
 		lvl := no.Type.Params.List[0].Names[0].Name
-		var lit *ast.CompositeLit
-		if len(no.Body.List) == 1 {
-			if r, ok := no.Body.List[0].(*ast.ReturnStmt); ok && len(r.Results) == 1 {
-				e := r.Results[0]
-				if u, ok := e.(*ast.UnaryExpr); ok && u.Op == token.AND {
-					e = u.X
-				}
-				lit, _ = e.(*ast.CompositeLit)
+		// what ends up in the level field: composite literal (positional / keyed), then `x.level = e` assignments in order
+		var stored ast.Expr
+		known := true
+		fromLit := func(lit *ast.CompositeLit) {
+			if len(lit.Elts) == 0 {
+				return
 			}
-		}
-		if lit == nil || show(lit.Type) != "Options" || len(lit.Elts) == 0 {
-			unrecognised("NewOptions is not a single `return &Options{…}`")
-		} else {
-			var stored ast.Expr
 			if _, keyed := lit.Elts[0].(*ast.KeyValueExpr); keyed {
 				for _, el := range lit.Elts {
-					if kv, ok := el.(*ast.KeyValueExpr); ok && show(kv.Key) == "level" {
+					if kv, ok := el.(*ast.KeyValueExpr); ok && show(kv.Key) == lvlField {
 						stored = kv.Value
 					}
 				}
-			} else if fs := p.structs["Options"]; len(fs) > 0 && fs[0].name == "level" {
-				stored = lit.Elts[0]
+				return
 			}
-			if stored == nil {
-				unrecognised("NewOptions does not set Options.level")
-			} else if show(stored) == lvl || show(stored) == "("+lvl+")" {
-				g.LevelStored = true
-			} else {
-				g.Notes = append(g.Notes, "NewOptions stores "+show(stored)+" instead of its level argument")
+			for i, fd := range p.structs["Options"] {
+				if fd.name == lvlField && i < len(lit.Elts) {
+					stored = lit.Elts[i]
+				}
 			}
+		}
+		sawOptions := false
+		for _, st := range no.Body.List {
+			switch x := st.(type) {
+			case *ast.ReturnStmt:
+				if len(x.Results) == 1 {
+					e := x.Results[0]
+					if u, ok := e.(*ast.UnaryExpr); ok && u.Op == token.AND {
+						e = u.X
+					}
+					if lit, ok := e.(*ast.CompositeLit); ok && show(lit.Type) == "Options" {
+						sawOptions = true
+						fromLit(lit)
+					}
+				}
+			case *ast.AssignStmt:
+				for i, l := range x.Lhs {
+					if id, ok := l.(*ast.Ident); ok && id.Name == lvl {
+						known = false // the parameter itself is changed
+					}
+					if i < len(x.Rhs) {
+						e := x.Rhs[i]
+						if u, ok := e.(*ast.UnaryExpr); ok && u.Op == token.AND {
+							e = u.X
+						}
+						if lit, ok := e.(*ast.CompositeLit); ok && show(lit.Type) == "Options" {
+							sawOptions = true
+							fromLit(lit)
+						}
+						if show(e) == "new(Options)" {
+							sawOptions = true
+						}
+						if sel, ok := l.(*ast.SelectorExpr); ok && sel.Sel.Name == lvlField {
+							stored = x.Rhs[i]
+						}
+					}
+				}
+			case *ast.DeclStmt:
+				sawOptions = true
+			default:
+				known = false
+			}
+		}
+		switch {
+		case !known || !sawOptions:
+			unrecognised("NewOptions: statements other than building an Options value, field assignments and return")
+		case stored == nil:
+			unrecognised("NewOptions does not set Options.%s", lvlField)
+		case show(stored) == lvl || show(stored) == "("+lvl+")":
+			g.LevelStored = true
+		default:
+			g.Notes = append(g.Notes, "NewOptions stores "+show(stored)+" instead of its level argument")
 		}
 	}
 	if en := p.methods["Options"]["Enabled"]; en == nil || en.decl.Type.Params == nil || len(en.decl.Type.Params.List) != 1 || len(en.decl.Type.Params.List[0].Names) != 1 {
@@ -1078,7 +1521,8 @@ func globalsOf(p *pkg) globalFacts {
 		if len(en.decl.Body.List) == 1 {
 			if r, isRet := en.decl.Body.List[0].(*ast.ReturnStmt); isRet && len(r.Results) == 1 {
 				c := show(r.Results[0])
-				if c == l+">="+en.recv+".level" || c == en.recv+".level<="+l || c == "!("+l+"<"+en.recv+".level)" {
+				f := en.recv + "." + lvlField
+				if c == l+">="+f || c == f+"<="+l || c == "!("+l+"<"+f+")" || c == "!("+f+">"+l+")" {
 					g.EnabledIsGe = true
 				} else {
 					g.Notes = append(g.Notes, "Options.Enabled is "+c)
@@ -1091,6 +1535,15 @@ func globalsOf(p *pkg) globalFacts {
 		}
 	}
 	// level gate
+	hfield := ""
+	for _, fd := range p.structs["Logger"] {
+		if fd.typ == "Handler" {
+			hfield = fd.name
+		}
+	}
+	if hfield == "" {
+		unrecognised("Logger has no field of type Handler")
+	}
 	g.GateFirst = true
 	for _, fn := range []string{"log", "logf", "logAttrs"} {
 		m := p.methods["Logger"][fn]
@@ -1099,38 +1552,14 @@ func globalsOf(p *pkg) globalFacts {
 			g.GateFirst = false
 			continue
 		}
-		lvl := ""
-		for _, prm := range m.decl.Type.Params.List {
-			if show(prm.Type) == "slog.Level" && len(prm.Names) == 1 {
-				lvl = prm.Names[0].Name
-			}
-		}
-		gate := "!" + m.recv + ".h.Enabled(" + lvl + ")"
-		first := false
-		if len(m.decl.Body.List) > 0 {
-			if is, ok := m.decl.Body.List[0].(*ast.IfStmt); ok && is.Init == nil && show(is.Cond) == gate && len(is.Body.List) == 1 {
-				if _, ok := is.Body.List[0].(*ast.ReturnStmt); ok {
-					first = true
-				}
-			}
-		}
+		first, seen := gateShape(m, hfield)
 		if !first {
-			seen := false
-			handleCalled := false
-			ast.Inspect(m.decl.Body, func(n ast.Node) bool {
-				if is, ok := n.(*ast.IfStmt); ok && strings.Contains(show(is.Cond), m.recv+".h.Enabled(") {
-					seen = true
-				}
-				if c, ok := n.(*ast.CallExpr); ok && show(c.Fun) == m.recv+".h.Handle" {
-					handleCalled = true
-				}
-				return true
-			})
+			handleCalled := countCalls(m.decl.Body, func(c *ast.CallExpr) bool { return show(c.Fun) == m.recv+"."+hfield+".Handle" }) > 0
 			if !handleCalled {
-				unrecognised("Logger.%s does not call %s.h.Handle", fn, m.recv)
+				unrecognised("Logger.%s does not call %s.%s.Handle", fn, m.recv, hfield)
 			}
 			if seen {
-				g.Notes = append(g.Notes, "Logger."+fn+": the level gate is not the first statement")
+				g.Notes = append(g.Notes, "Logger."+fn+": something runs before the level gate decides")
 			} else {
 				g.Notes = append(g.Notes, "Logger."+fn+": no level gate")
 			}
@@ -1153,6 +1582,9 @@ func analyse(repo, mode string) (string, []string, []string) {
 	p := load(filepath.Join(repo, "logger"))
 	if p == nil {
 		return "", nil, unrec
+	}
+	for _, t := range handlerTypes {
+		rolesOf(p, t.typ)
 	}
 	var out strings.Builder
 	var notes []string
@@ -1180,7 +1612,7 @@ func analyse(repo, mode string) (string, []string, []string) {
 				notes = append(notes, t.typ+": "+n)
 			}
 		}
-		notes = append(notes, "maxBufferSize = "+g.MaxBufferSize)
+		notes = append(notes, "pool size limit: "+g.MaxBufferSize)
 		notes = append(notes, g.Notes...)
 	}
 	return out.String(), notes, unrec
